@@ -12,9 +12,21 @@
 // The full diagram (zero-length pairs included, as values) does not depend on how ties are broken: the off-diagonal
 // part is an invariant of the persistence module, and the number of pairs (v, v) of dimension d follows by induction
 // on d from the number of d-cells of value v.
+//
+// Values are only compared (==, <), never added: +inf and -inf are ordinary values of the model (a cell of value +inf
+// enters last).  This is why the result is returned as Model_diagram, where the essential classes are told apart from
+// the finite pairs by the reduction (unpaired cell), not by "death == +inf".  NaN is excluded.
+//
+// Two further, cheaper restatements are provided for the inputs on which the map-based reduction is too slow; each
+// case that can afford it runs both and compares them (harness.model_* check ids):
+//   * lower_star_pairs_vec: the same filtration reduced with the same left-to-right algorithm over Z_2, columns held as
+//     sorted vectors instead of std::map (rectangles with sides > 48);
+//   * line_elder_rule: 0-dimensional persistence of a line by the elder rule with a union-find over the samples taken in
+//     increasing order (lines longer than 200 samples).
 #ifndef VERIF_C14_CUBICAL_MODEL_H_
 #define VERIF_C14_CUBICAL_MODEL_H_
 #include "oracle/zp_reduce.h"
+#include <numeric>
 
 namespace c14 {
 
@@ -22,9 +34,19 @@ typedef oracle::Interval Interval;
 
 struct Model_cell { double value; int dim; int id; };
 
+// the pairs of the model, by kind
+struct Model_diagram {
+  std::vector<Interval> offdiag;    // paired cells, birth value < death value (the death value may be +inf, the birth -inf)
+  std::vector<Interval> diag;       // paired cells of equal value
+  std::vector<double> essential;    // value of each unpaired cell (there must be exactly one, of dimension 0)
+  void sort() { std::sort(offdiag.begin(), offdiag.end()); std::sort(diag.begin(), diag.end()); }
+};
+
 // top: n_rows * n_cols values in C order (index = col + n_cols * row).  n_rows == 0 means "a line of n_cols cells"
 // (a genuinely 1-dimensional complex: vertices and edges only).
-inline std::vector<Interval> lower_star_diagram(int n_rows, int n_cols, const std::vector<double>& top) {
+// Output: the cells in filtration order (dimension + boundary as positions) and the value of the cell at each position.
+inline void lower_star_filtration(int n_rows, int n_cols, const std::vector<double>& top, std::vector<oracle::Cell>& fc,
+                                  std::vector<double>& value_at_pos) {
   const bool line = (n_rows == 0);
   const int H = line ? 1 : 2 * n_rows + 1, W = 2 * n_cols + 1;
   std::vector<Model_cell> cells;
@@ -54,8 +76,8 @@ inline std::vector<Interval> lower_star_diagram(int n_rows, int n_cols, const st
   });
   std::vector<int> pos(cells.size());
   for (size_t i = 0; i < order.size(); ++i) pos[order[i]] = (int)i;
-  std::vector<oracle::Cell> fc(cells.size());
-  std::vector<double> value_at_pos(cells.size());
+  fc.assign(cells.size(), oracle::Cell());
+  value_at_pos.assign(cells.size(), 0);
   for (size_t i = 0; i < order.size(); ++i) {
     const int id = order[i], Y = id / W, X = id % W;
     fc[i].dim = cells[id].dim;
@@ -63,7 +85,87 @@ inline std::vector<Interval> lower_star_diagram(int n_rows, int n_cols, const st
     if (!line && Y % 2) { fc[i].bdry.emplace_back(pos[(Y - 1) * W + X], 1); fc[i].bdry.emplace_back(pos[(Y + 1) * W + X], 1); }
     if (X % 2) { fc[i].bdry.emplace_back(pos[Y * W + X - 1], 1); fc[i].bdry.emplace_back(pos[Y * W + X + 1], 1); }
   }
-  return oracle::diagram(oracle::reduce(fc, 2).bars, value_at_pos, /*drop_zero_length=*/false);
+}
+
+inline Model_diagram model_diagram_of_bars(const std::vector<oracle::Bar>& bars, const std::vector<double>& value_at_pos) {
+  Model_diagram D;
+  for (auto& b : bars) {
+    if (b.death < 0) { D.essential.push_back(value_at_pos[b.birth]); continue; }
+    Interval i{b.dim, value_at_pos[b.birth], value_at_pos[b.death]};
+    (i.birth == i.death ? D.diag : D.offdiag).push_back(i);
+  }
+  D.sort();
+  return D;
+}
+
+// the reference: oracle::reduce (std::map columns)
+inline Model_diagram lower_star_pairs(int n_rows, int n_cols, const std::vector<double>& top) {
+  std::vector<oracle::Cell> fc; std::vector<double> value_at_pos;
+  lower_star_filtration(n_rows, n_cols, top, fc, value_at_pos);
+  return model_diagram_of_bars(oracle::reduce(fc, 2).bars, value_at_pos);
+}
+
+// same filtration, same algorithm (add the column owning the lowest row until the lowest row is free), sorted-vector columns
+inline Model_diagram lower_star_pairs_vec(int n_rows, int n_cols, const std::vector<double>& top) {
+  std::vector<oracle::Cell> fc; std::vector<double> value_at_pos;
+  lower_star_filtration(n_rows, n_cols, top, fc, value_at_pos);
+  const int N = (int)fc.size();
+  std::vector<std::vector<int>> col(N);
+  std::vector<int> owner(N, -1);
+  std::vector<char> paired(N, 0);
+  std::vector<oracle::Bar> bars;
+  std::vector<int> b, t;
+  for (int j = 0; j < N; ++j) {
+    b.clear();
+    for (auto& f : fc[j].bdry) b.push_back(f.first);
+    std::sort(b.begin(), b.end());
+    while (!b.empty() && owner[b.back()] >= 0) {
+      const std::vector<int>& o = col[owner[b.back()]];
+      t.clear();
+      std::set_symmetric_difference(b.begin(), b.end(), o.begin(), o.end(), std::back_inserter(t));
+      b.swap(t);
+    }
+    if (!b.empty()) { const int l = b.back(); owner[l] = j; paired[l] = paired[j] = 1; col[j] = b; bars.push_back(oracle::Bar{fc[l].dim, l, j}); }
+  }
+  for (int j = 0; j < N; ++j) if (!paired[j]) bars.push_back(oracle::Bar{fc[j].dim, j, -1});
+  return model_diagram_of_bars(bars, value_at_pos);
+}
+
+// 0-dimensional sublevel-set persistence of samples on a line, by the elder rule: samples enter by increasing value; a sample
+// entering between two existing components merges them, and the component whose minimum is the larger one dies there.
+inline Model_diagram line_elder_rule(const std::vector<double>& v) {
+  const int n = (int)v.size();
+  Model_diagram D;
+  if (n == 0) return D;
+  std::vector<int> ord(n), parent(n, -1);  // parent == -1: the sample has not entered yet
+  std::iota(ord.begin(), ord.end(), 0);
+  std::stable_sort(ord.begin(), ord.end(), [&](int a, int b) { return v[a] < v[b]; });
+  std::vector<double> cmin(n);             // minimum of the component, stored at its root
+  auto find = [&](int x) { while (parent[x] != x) x = parent[x] = parent[parent[x]]; return x; };
+  for (int i : ord) {
+    parent[i] = i; cmin[i] = v[i];
+    for (int nb : {i - 1, i + 1}) {
+      if (nb < 0 || nb >= n || parent[nb] < 0) continue;
+      int a = find(i), b = find(nb);
+      if (a == b) continue;
+      if (cmin[a] < cmin[b]) std::swap(a, b);   // a = the younger component (larger or equal minimum): it dies at v[i]
+      if (cmin[a] != v[i]) D.offdiag.push_back(Interval{0, cmin[a], v[i]});
+      parent[a] = b;
+    }
+  }
+  D.essential.push_back(cmin[find(0)]);
+  D.sort();
+  return D;
+}
+
+// kept for the closed-form self-tests: every pair as an interval, death = +inf for the essential class (finite inputs only)
+inline std::vector<Interval> lower_star_diagram(int n_rows, int n_cols, const std::vector<double>& top) {
+  Model_diagram D = lower_star_pairs(n_rows, n_cols, top);
+  std::vector<Interval> out = D.offdiag;
+  out.insert(out.end(), D.diag.begin(), D.diag.end());
+  for (double e : D.essential) out.push_back(Interval{0, e, std::numeric_limits<double>::infinity()});
+  std::sort(out.begin(), out.end());
+  return out;
 }
 
 }  // namespace c14
